@@ -1,12 +1,14 @@
 """C11 Linear spectra match the Fourier integral and symmetry relations.
 
-E-grid: eight complete products (molecule; aggregate; aggregate + static secular Redfield tensor;
+E-grid: ten complete products (molecule; aggregate; aggregate + static secular Redfield tensor;
 aggregate + time-dependent tensor; from_dynamics route; aggregate with a user-supplied
 CorrelationFunctionMatrix carrying site-off-diagonal (cross-correlation) entries; aggregate whose
-Hamiltonian carries a split-off remainder coupling; histories of the aggregate object) over (size,
+Hamiltonian carries a split-off remainder coupling; histories of the aggregate object; systems
+whose dipoles all carry a common factor s; histories of one calculator object) over (size,
 site-energy set, coupling pattern, dipole geometry, bath pattern, time-axis length and step
 [, correlation-matrix pattern][, cut-off mode x value][, operation sequence x calculator
-creation time]).  Inside EVERY grid point (history section excepted) the whole inner alphabets
+creation time][, common dipole factor][, calculator operation sequence]).
+Inside EVERY grid point (the two history sections excepted) the whole inner alphabets
 are applied (never sampled): all rotations of the tier's rotation set, all relabellings of the
 molecules, all dipole scale factors, the uncoupled partner system (integral clause) and an
 exception injected at every call position of `one_transition_spectrum` (purity under failure).
@@ -52,6 +54,27 @@ Added dimensions
              made), then purity + Fourier clause of the final spectrum and its identity (class R)
              with the spectrum of an identical, never touched aggregate.  (Mock line SHAPES have no
              dipole correlation function and are not compared with anything.)
+  dipole-scale  grid dimension s in {1, 1e-2, 1e-4, 1e3}: ALL dipoles of the system are s times
+             the geometry's vectors (dipole-dipole couplings kept fixed through eps_r -> s^2 eps_r).
+             At every s the whole of eval_case runs (Fourier clause with the reference built from
+             the scaled dipoles, inner scale factors, rotations, relabellings, integral with and
+             without coupling, purity), plus S[s d] == s^2 S[d] against the unit-scale system
+             (class R; molecule 5e-6 because of its radiative width, s = 1e3 not in the molecule's
+             product for the same reason).  The run-level integral clause compares the integrals per
+             unit sum|d_k|^2 ACROSS the scales.  Energy set "equal" (identical molecules) with
+             parallel equal dipoles and non-zero coupling gives exactly dark exciton states.
+  calculator-history  ALL sequences up to the tier's depth, ending with a calculate operation,
+             over the operations of ONE AbsSpectrumCalculator object: b bootstrap(), p / q
+             bootstrap(rwa=r1 / r2), w molecule.set_electronic_rwa (the class docstring's
+             sequence), P bootstrap(prop=propagator), c calculate(raw=True), f
+             calculate(raw=True, from_dynamics=True) [only while the last bootstrap gave a
+             propagator].  After EVERY calculate operation: purity, the Fourier clause evaluated
+             at the axis returned with THAT spectrum (same classification as everywhere: the known
+             two-point displacement is recognised only on the central cut of the 2Nt axis around
+             the calculator's current carrier), identity (class R) with earlier spectra of the same
+             history calculated by the same route at the same carrier frequency.  The documented
+             refusals (calculate before any successful bootstrap; bootstrap without any RWA
+             frequency) are steps of the histories; they must leave the system unchanged.
 """
 import itertools
 
@@ -77,7 +100,10 @@ TOL_I = 5e-3
 
 VEC = [[1.0, 0.0, 0.0], [0.3, 0.9, 0.1], [-0.4, 0.2, 0.8], [0.5, -0.7, 0.4]]
 POS = [[0.0, 0.0, 0.0], [7.0, 1.0, 0.0], [1.5, 8.0, 2.0]]          # Angstrom
-ESETS = {"wide": [12000.0, 12200.0, 12350.0], "narrow": [12100.0, 12040.0, 12160.0]}
+ESETS = {"wide": [12000.0, 12200.0, 12350.0], "narrow": [12100.0, 12040.0, 12160.0],
+         # identical molecules: with equal (parallel) dipoles the coupled aggregate has EXACTLY dark
+         # exciton states (used only with non-zero coupling, which resolves the levels)
+         "equal": [12100.0, 12100.0, 12100.0]}
 BATHS = {
     "same": [dict(ftype="OverdampedBrownian", reorg=30.0, cortime=100.0, T=300.0)] * 3,
     "sitewise": [dict(ftype="OverdampedBrownian", reorg=30.0, cortime=100.0, T=300.0),
@@ -115,6 +141,9 @@ def cfm_pattern(n, name):
 
 DD_DIPOLE_FACTOR = 4.0    # dipole-dipole mode: dipoles of ~4 D at ~7 A give |J| ~ 20-100 1/cm
 SCALES = [0.5, 2.0]
+# dipole-scale DIMENSION of the grid (section "dipole-scale"): every clause is evaluated on the
+# system whose dipoles all carry the factor s, and S[s d] is compared with s^2 S[d]
+DSCALES = [1.0, 1.0e-2, 1.0e-4, 1.0e3]
 
 
 class Injected(Exception):
@@ -162,11 +191,16 @@ def spec_of(case):
     n = case["N"]
     dd = case["coupling"] == "dd"
     f = DD_DIPOLE_FACTOR if dd else 1.0
+    # dipole-scale dimension: ALL dipoles of the system carry the common factor s (dipoles given
+    # in other units, very weak / very strong transitions); dipole-dipole couplings are kept
+    # fixed through eps_r -> s^2 eps_r
+    s = float(case.get("dscale", 1.0))
     return {"kind": case["kind"], "n": n,
             "E": list(ESETS[case["eset"]][:n]),
-            "dip": [[f * x for x in VEC[int(ch)]] for ch in case["geom"]],
+            "dip": [[s * (f * x) for x in VEC[int(ch)]] for ch in case["geom"]],
             "pos": [list(p) for p in POS[:n]],
-            "J": coupling_matrix(n, case["coupling"]), "dd": dd, "epsr": 1.0,
+            "J": coupling_matrix(n, case["coupling"]), "dd": dd, "epsr": 1.0 * s * s,
+            "dscale": s,
             "bath": [dict(b) for b in BATHS[case["bath"]][:n]],
             "shared_cf": case["bath"] in ("same", "cold"),
             "tensor": case["tensor"] if case["tensor"] == "td" else bool(case["tensor"]),
@@ -534,6 +568,8 @@ def eval_case(case, tier=None):
         return eval_dynamics(case, tier)
     if case.get("route") == "history":
         return eval_history(case, tier)
+    if case.get("route") == "calc-history":
+        return eval_calc_history(case, tier)
     spec = spec_of(case)
     viol = {}
     dev = {}
@@ -554,6 +590,8 @@ def eval_case(case, tier=None):
         kindtag += "+cf-matrix"
     if spec.get("cutoff"):
         kindtag += "+cutoff-" + spec["cutoff"][0]
+    if spec["dscale"] != 1.0:
+        kindtag += "+scaled-dipoles"
     nt, dt = spec["Nt"], spec["dt"]
 
     # ---------------- base system: purity + Fourier -----------------------------------
@@ -618,6 +656,22 @@ def eval_case(case, tier=None):
             add("scaling/k^2/" + kindtag,
                 "S[%g d] differs from %g S[d] by %.3g (relative)" % (k, k * k, rel),
                 {"k": k})
+
+    # ---------------- dipole-scale dimension: S[s d] == s^2 S[d] ---------------------------
+    if spec["dscale"] != 1.0:
+        ds = spec["dscale"]
+        unit = dict(case)
+        unit["dscale"] = 1.0
+        v = build(spec_of(unit))
+        sv = spectrum(v, raw=True)
+        ncalc += 1
+        tol = TOL_MONO_SCALE if kind == "molecule" else TOL_R
+        ok, rel = same_spectrum(sv, base, tol, factor=ds * ds)
+        worst("dipole-scale-" + kind, rel)
+        if not ok:
+            add("scaling/dipole-scale-dimension/" + kindtag,
+                "S[s d] differs from s^2 S[d] by %.3g (relative to the peak of s^2 S[d]) for "
+                "the common dipole factor s = %g" % (rel, ds), {"s": ds})
 
     # ---------------- rotations ------------------------------------------------------------
     for ir, rot in enumerate(rotations(tier)):
@@ -779,6 +833,44 @@ def spectrum_dynamics(b):
             got.get("at"))
 
 
+def fourier_clause_dynamics(b, x, y, at, tag, devprefix, add, worst):
+    """Fourier clause of a from_dynamics spectrum (x, y) whose first-order signal field `at` was
+    captured: the transform / axis bookkeeping only.  Returns the classification."""
+    nt, dt = b.spec["Nt"], b.spec["dt"]
+    fourier = "ok"
+    carrier = float(b.calc.rwa)
+    # the captured signal rotates at the carrier (propagation in the rotating frame)
+    ref = AR.half_sided_sum(b.ta.data, at, x - carrier, dt)
+    peak = float(numpy.max(numpy.abs(ref)))
+    endpoint = 2.0 * float(numpy.abs(at[-1])) * dt      # end-point rule not prescribed
+    okf, errf = approx(y, ref, TOL_F + endpoint / max(peak, 1e-300), scale=peak)
+    if not okf:
+        exp_axis = carrier + AR.expected_axis_offsets(nt, dt)
+        cut = len(x) == nt and approx(x, exp_axis, TOL_R, scale=max(abs(carrier), 1.0))[0]
+        oks, errs = False, float("inf")
+        if len(y) == nt:
+            sig = AR.hermitian_sum_nyquist(b.ta.data, at, AR.hfft_default_grid(nt, dt, 2), dt)
+            oks, errs = approx(y, sig, TOL_R, scale=peak)
+        if cut and oks:
+            fourier = "shift+2"
+            worst(devprefix + "fourier-vs-displaced-hfft-grid", errs / peak)
+            add("fourier/axis-shift=+2/hfft-length",
+                "from_dynamics spectrum is displaced by exactly two points on its axis (hfft "
+                "default length 2(Nt-1) against an axis cut from the 2Nt-point axis); on-axis "
+                "error %.3g of peak %.3g, error on the displaced grid %.2g" % (errf, peak, errs),
+                {"on_axis_error": errf, "peak": peak, "displaced_grid_error": errs})
+        else:
+            fourier = "mismatch"
+            add("fourier/mismatch/" + tag,
+                "from_dynamics spectrum differs from the direct Fourier sum of its own signal "
+                "field at the returned axis points by %.3g (peak %.3g); displaced-grid error "
+                "%.3g, axis-is-2Nt-cut=%s" % (errf, peak, errs, cut),
+                {"on_axis_error": errf, "peak": peak})
+    else:
+        worst(devprefix + "fourier", errf / peak)
+    return fourier
+
+
 def eval_dynamics(case, tier):
     spec = spec_of(case)
     td = bool(case["td"])
@@ -810,40 +902,10 @@ def eval_dynamics(case, tier):
     if not ok:
         add("purity/second-call-differs/dynamics", "a second calculate(from_dynamics=True) "
             "returns a different spectrum (rel. dev %.3g)" % rel, None)
-    fourier = "ok"
     if at is None or len(x) != len(y) or len(x) < 2 or not numpy.all(numpy.diff(x) > 0):
         add("axis/not-increasing-or-length/dynamics", "no signal captured or bad axis", None)
         return {"nontrivial": False, "outcome": "bad-axis", "violations": list(viol.values())}
-    carrier = float(b.calc.rwa)
-    # the captured signal rotates at the carrier (propagation in the rotating frame)
-    ref = AR.half_sided_sum(b.ta.data, at, x - carrier, dt)
-    peak = float(numpy.max(numpy.abs(ref)))
-    endpoint = 2.0 * float(numpy.abs(at[-1])) * dt      # end-point rule not prescribed
-    okf, errf = approx(y, ref, TOL_F + endpoint / max(peak, 1e-300), scale=peak)
-    if not okf:
-        exp_axis = carrier + AR.expected_axis_offsets(nt, dt)
-        cut = len(x) == nt and approx(x, exp_axis, TOL_R, scale=max(abs(carrier), 1.0))[0]
-        oks, errs = False, float("inf")
-        if len(y) == nt:
-            sig = AR.hermitian_sum_nyquist(b.ta.data, at, AR.hfft_default_grid(nt, dt, 2), dt)
-            oks, errs = approx(y, sig, TOL_R, scale=peak)
-        if cut and oks:
-            fourier = "shift+2"
-            worst("dynamics-fourier-vs-displaced-hfft-grid", errs / peak)
-            add("fourier/axis-shift=+2/hfft-length",
-                "from_dynamics spectrum is displaced by exactly two points on its axis (hfft "
-                "default length 2(Nt-1) against an axis cut from the 2Nt-point axis); on-axis "
-                "error %.3g of peak %.3g, error on the displaced grid %.2g" % (errf, peak, errs),
-                {"on_axis_error": errf, "peak": peak, "displaced_grid_error": errs})
-        else:
-            fourier = "mismatch"
-            add("fourier/mismatch/dynamics",
-                "from_dynamics spectrum differs from the direct Fourier sum of its own signal "
-                "field at the returned axis points by %.3g (peak %.3g); displaced-grid error "
-                "%.3g, axis-is-2Nt-cut=%s" % (errf, peak, errs, cut),
-                {"on_axis_error": errf, "peak": peak})
-    else:
-        worst("dynamics-fourier", errf / peak)
+    fourier = fourier_clause_dynamics(b, x, y, at, "dynamics", "dynamics-", add, worst)
     base = (x, y)
     for k in SCALES:
         v = build_dynamics(variant(spec, scale=k), td)
@@ -854,6 +916,20 @@ def eval_dynamics(case, tier):
         if not ok:
             add("scaling/k^2/dynamics", "from_dynamics: S[%g d] differs from %g S[d] by %.3g"
                 % (k, k * k, rel), {"k": k})
+    if spec["dscale"] != 1.0:
+        # dipole-scale dimension: against the unit-scale system
+        ds = spec["dscale"]
+        unit = dict(case)
+        unit["dscale"] = 1.0
+        v = build_dynamics(spec_of(unit), td)
+        xv, yv, _ = spectrum_dynamics(v)
+        ncalc += 1
+        ok, rel = same_spectrum((xv, yv), base, TOL_R, factor=ds * ds)
+        worst("dynamics-dipole-scale", rel)
+        if not ok:
+            add("scaling/dipole-scale-dimension/dynamics",
+                "from_dynamics: S[s d] differs from s^2 S[d] by %.3g (relative to the peak of "
+                "s^2 S[d]) for the common dipole factor s = %g" % (rel, ds), {"s": ds})
     for ir, rot in enumerate(rotations("quick")):
         v = build_dynamics(variant(spec, rot=rot), td)
         xv, yv, _ = spectrum_dynamics(v)
@@ -1026,6 +1102,197 @@ def eval_history(case, tier):
                      "fourier": "history-" + fc["fourier"], "case": case}}
 
 
+# ------------------------------------------------------------------------------------------
+# calculator histories: things done with ONE AbsSpectrumCalculator object
+# ------------------------------------------------------------------------------------------
+CALC_OPS = {"b": "bootstrap()",
+            "p": "bootstrap(rwa=<mean transition energy> - 40 1/cm)",
+            "q": "bootstrap(rwa=<mean transition energy> + 150 1/cm)",
+            "w": "system.set_electronic_rwa([0, 1]) (RWA frequency supplied by the molecule "
+                 "from now on)",
+            "P": "bootstrap(prop=<standard Redfield propagator of the system>)",
+            "c": "calculate(raw=True)",
+            "f": "calculate(raw=True, from_dynamics=True)"}
+CALC_RWA_OFFSETS = {"p": -40.0, "q": 150.0}         # 1/cm, relative to the mean site energy
+CALC_BOOT, CALC_CALC = "bpqP", "cf"
+# line-shape route: alphabet per system family; dynamics route: one alphabet
+CALC_ALPHABET = {"molecule-explicit": "pqbwc", "system-rwa": "bpc", "dynamics": "bPcf"}
+CALC_DEPTH = {"quick": {"molecule-explicit": 4, "system-rwa": 4, "dynamics": 4},
+              "thorough": {"molecule-explicit": 5, "system-rwa": 5, "dynamics": 5}}
+
+
+def calc_histories(family, depth):
+    """ALL operation sequences of length 1..depth over the family's alphabet that end with a
+    calculate operation (a trailing bootstrap has nothing observable) and in which
+    from_dynamics is only requested while the calculator holds a propagator (the most recent
+    bootstrap operation is P); shortest first."""
+    out = []
+    for ln in range(1, depth + 1):
+        for p in itertools.product(CALC_ALPHABET[family], repeat=ln):
+            h = "".join(p)
+            if h[-1] not in CALC_CALC:
+                continue
+            ok = True
+            for i, op in enumerate(h):
+                if op == "f":
+                    boots = [o for o in h[:i] if o in CALC_BOOT]
+                    if not boots or boots[-1] != "P":
+                        ok = False
+            if ok:
+                out.append(h)
+    return out
+
+
+def fresh_calculator(b):
+    """A new, not yet bootstrapped calculator for the built system (same constructor arguments
+    as the one made by build())."""
+    qr = isolation.qr()
+    if b.tensor is not None:
+        return qr.AbsSpectrumCalculator(b.ta, system=b.system, relaxation_tensor=b.tensor,
+                                        effective_hamiltonian=b.ham)
+    return qr.AbsSpectrumCalculator(b.ta, system=b.system)
+
+
+def eval_calc_history(case, tier):
+    """History of ONE calculator object.  After every calculate operation: purity, the Fourier
+    clause at the axis returned WITH THAT spectrum, and identity (class R) with every earlier
+    spectrum of the same history that was calculated by the same route with the same carrier
+    frequency calc.rwa."""
+    spec = spec_of(case)
+    hist = case["hist"]
+    viol, dev = {}, {}
+
+    def add(key, what, det=None):
+        if key not in viol:
+            viol[key] = (key, what, det)
+
+    def worst(name, x):
+        dev[name] = max(dev.get(name, 0.0), float(x))
+
+    qr = isolation.qr()
+    kind = spec["kind"]
+    kindtag = kind + ("+tensor" if spec["tensor"] else "") + "+calculator-history"
+    b = build(spec)
+    prop = None
+    if "P" in hist:
+        prop = b.system.get_ReducedDensityMatrixPropagator(b.ta, relaxation_theory="stR",
+                                                           time_dependent=False)
+        isolation.reset_units()
+    objs = observed_objects(b)
+    snap0 = snapshot(objs)
+    hlib = None if kind == "molecule" else snap0["hamiltonian"].copy()
+    rsite = snap0.get("tensor")
+    b.calc = fresh_calculator(b)            # the ONE calculator of this history
+    emean = float(numpy.mean(spec["E"]))
+    booted = False
+    status = []
+    seen = []                               # (route, carrier, axis, data, position)
+    last = None
+    fcl = "none"
+    resolved = True
+    ncalc = 0
+    for pos, op in enumerate(hist):
+        if op == "w":
+            b.system.set_electronic_rwa([0, 1])
+            status.append("w")
+            continue
+        if op in CALC_BOOT:
+            try:
+                if op == "b":
+                    b.calc.bootstrap()
+                elif op == "P":
+                    b.calc.bootstrap(prop=prop)
+                else:
+                    with qr.energy_units("1/cm"):
+                        b.calc.bootstrap(rwa=emean + CALC_RWA_OFFSETS[op])
+                booted = True
+                status.append(op)
+            except Exception as e:
+                # the documented refusal: no RWA frequency from the system and none given
+                if "RWA not set" not in str(e):
+                    raise
+                status.append(op + ":refused")
+            finally:
+                isolation.reset_units()
+            continue
+        # ---- a calculate operation
+        snap = snapshot(objs)
+        ncalc += 1
+        try:
+            if op == "c":
+                x, y = spectrum(b, raw=True)
+                at = None
+            else:
+                x, y, at = spectrum_dynamics(b)
+        except Exception as e:
+            isolation.reset_units()
+            # the documented refusal of a calculator that was never bootstrapped
+            if booted or "bootstrapped first" not in str(e):
+                raise
+            status.append(op + ":refused")
+            bad, w = changed(objs, snap)
+            if bad:
+                add("purity/after-refused-calculate/calculator-history/" + "+".join(sorted(bad)),
+                    "step %d of calculator history %r: the refused calculate() changed %s"
+                    % (pos + 1, hist, bad), {"changed": bad, "step": pos + 1})
+            continue
+        status.append(op)
+        bad, w = changed(objs, snap)
+        worst("calc-history-purity", w)
+        if bad:
+            add("purity/after-calculate/calculator-history/" + "+".join(sorted(bad)),
+                "step %d of calculator history %r (%s) changed %s of the system (max rel. change "
+                "%.3g)" % (pos + 1, hist, CALC_OPS[op], bad, w), {"changed": bad, "step": pos + 1})
+        # Fourier clause on the axis returned with THIS spectrum
+        if op == "c":
+            fc = fourier_clause(b, (x, y), hlib, rsite, kindtag, add, worst)
+            if fc is None:
+                fcl = "bad-axis"
+                continue
+            fcl = fc["fourier"]
+            resolved = fc["resolved"]
+        else:
+            if at is None or len(x) != len(y) or len(x) < 2 or \
+                    not numpy.all(numpy.diff(x) > 0):
+                add("axis/not-increasing-or-length/dynamics+calculator-history",
+                    "no signal captured or bad axis", None)
+                fcl = "bad-axis"
+                continue
+            fcl = fourier_clause_dynamics(b, x, y, at, "dynamics+calculator-history",
+                                          "calc-history-dynamics-", add, worst)
+        # same route, same carrier frequency => same spectrum on the same axis
+        carrier = float(b.calc.rwa)
+        for route0, car0, x0, y0, pos0 in seen:
+            if route0 == op and car0 == carrier:
+                ok, rel = same_spectrum((x0, y0), (x, y), TOL_R)
+                worst("calc-history-same-carrier", rel)
+                if not ok:
+                    add("calculator-history/same-carrier-different-spectrum/" + kind,
+                        "calculator history %r: the spectra returned by steps %d and %d (%s, "
+                        "carrier frequency %.10g in both) differ by %.3g (relative) in data or "
+                        "axis" % (hist, pos0 + 1, pos + 1, CALC_OPS[op], carrier, rel),
+                        {"steps": [pos0 + 1, pos + 1]})
+                break
+        seen.append((op, carrier, x, y, pos))
+        last = (x, y)
+    if last is None:
+        outcome = ["calc-history", kind, hist, status]
+    else:
+        x, y = last
+        ipk = int(numpy.argmax(y))
+        pk = float(y[ipk])
+        outcome = ["calc-history", kind, spec["n"], hist, status, ipk,
+                   float("%.6g" % pk), round(float(x[0]), 8), fcl]
+    coupled = kind == "aggregate" and (spec["dd"] or any(v != 0.0 for r_ in spec["J"]
+                                                         for v in r_))
+    nboot = sum(1 for st in status if st in tuple(CALC_BOOT))
+    return {"nontrivial": bool(last is not None and resolved and nboot >= 2
+                               and (coupled or kind == "molecule")),
+            "outcome": outcome, "violations": list(viol.values()), "n": max(ncalc - 1, 0),
+            "info": {"dev": dev, "cint": None, "grp": None,
+                     "fourier": "calc-history-" + fcl, "case": case}}
+
+
 def replay(case):
     if "min" in case and "max" in case:      # run-level artefact: two systems of one group
         ra, rb = eval_case(case["min"]), eval_case(case["max"])
@@ -1151,6 +1418,62 @@ def sections(tier):
                         "tensor": [False], "hist": histories(tier),
                         "calc": ["before", "after"], "axis": AXES_TD[tier][:1]})
     sec["history"] = his
+    # ---- dipole-scale dimension: kind x N x energy set (incl. identical molecules -> exactly
+    # dark states) x coupling x geometry x bath x tensor x COMMON DIPOLE FACTOR x axis; every
+    # clause of eval_case at every scale + S[s d] = s^2 S[d] against the unit-scale system
+    dsc = product({"kind": ["molecule"], "N": [1], "eset": ["wide"], "coupling": ["none"],
+                   "geom": _geoms(1, "quick"), "bath": ["same"], "tensor": [False],
+                   "rwa": ["system", "explicit"],
+                   # s = 1e3 would give the isolated molecule a radiative width ~ |d|^2 comparable
+                   # with its line width (the k^2 law is not physical there): not in the product
+                   "dscale": [s_ for s_ in DSCALES if s_ <= 1.0], "axis": AXES_TD[tier]})
+    for n in (2, 3):
+        coup = ["chain60", "dd"] + ([] if quick else ["chain-120"]) + (["full"] if n == 3 else [])
+        dsc += product({"kind": ["aggregate"], "N": [n],
+                        "eset": ["wide", "equal"] if quick else ["wide", "narrow", "equal"],
+                        "coupling": coup,
+                        "geom": _geoms(n, "quick")[:2] if quick else _geoms(n, "quick"),
+                        "bath": ["sitewise"] if quick else ["same", "sitewise"],
+                        "tensor": [False, True], "dscale": DSCALES, "axis": AXES_TD[tier]})
+    for n in (2,) if quick else (2, 3):
+        dsc += product({"route": ["dynamics"], "kind": ["aggregate"], "N": [n], "eset": ["wide"],
+                        "coupling": ["chain60"] if quick else ["chain60", "dd"],
+                        "geom": _geoms(n, "quick")[:1], "bath": ["sitewise"], "tensor": [False],
+                        "td": [False], "dscale": DSCALES[1:], "axis": AXES_DYN[tier][:1]})
+    sec["dipole-scale"] = dsc
+    # ---- histories of ONE calculator object: system x ALL operation sequences up to the depth
+    # (ending with a calculate operation) over the family's alphabet
+    chs = []
+    depth = CALC_DEPTH[tier]
+    chs += product({"route": ["calc-history"], "family": ["molecule-explicit"],
+                    "kind": ["molecule"], "N": [1], "eset": ["wide"], "coupling": ["none"],
+                    "geom": ["1"], "bath": ["same"], "tensor": [False], "rwa": ["explicit"],
+                    "hist": calc_histories("molecule-explicit", depth["molecule-explicit"]),
+                    "axis": AXES_TD[tier]})
+    hsys = calc_histories("system-rwa", depth["system-rwa"])
+    chs += product({"route": ["calc-history"], "family": ["system-rwa"],
+                    "kind": ["molecule"], "N": [1], "eset": ["wide"], "coupling": ["none"],
+                    "geom": ["1"], "bath": ["same"], "tensor": [False], "rwa": ["system"],
+                    "hist": hsys, "axis": AXES_TD[tier]})
+    for n in (2, 3):
+        coup = [["chain60"], ["dd"]][n - 2] if quick else \
+            (["chain60", "dd"] + (["full"] if n == 3 else []))
+        chs += product({"route": ["calc-history"], "family": ["system-rwa"],
+                        "kind": ["aggregate"], "N": [n], "eset": ["wide"], "coupling": coup,
+                        "geom": _geoms(n, "quick")[:1], "bath": ["sitewise"],
+                        "tensor": [False, True], "hist": hsys, "axis": AXES_TD[tier]})
+    hdyn = calc_histories("dynamics", depth["dynamics"])
+    chs += product({"route": ["calc-history"], "family": ["dynamics"],
+                    "kind": ["molecule"], "N": [1], "eset": ["wide"], "coupling": ["none"],
+                    "geom": ["1"], "bath": ["same"], "tensor": [False], "rwa": ["system"],
+                    "hist": hdyn, "axis": AXES_TD[tier][:1]})
+    for n in (2,) if quick else (2, 3):
+        chs += product({"route": ["calc-history"], "family": ["dynamics"],
+                        "kind": ["aggregate"], "N": [n], "eset": ["wide"],
+                        "coupling": ["chain60"] if quick else ["chain60", "dd"],
+                        "geom": _geoms(n, "quick")[:1], "bath": ["sitewise"],
+                        "tensor": [False], "hist": hdyn, "axis": AXES_TD[tier][:1]})
+    sec["calculator-history"] = chs
     for lst in sec.values():
         for c in lst:
             c["Nt"], c["dt"] = int(c["axis"][0]), float(c["axis"][1])
@@ -1168,18 +1491,25 @@ def cases(tier):
 
 def run(run):
     from mc.explore import rotate
-    run.rule = ("eight complete products (molecule / aggregate / aggregate+static Redfield "
+    run.rule = ("ten complete products (molecule / aggregate / aggregate+static Redfield "
                 "tensor / aggregate+time-dependent tensor / from_dynamics route / aggregate with "
                 "user-supplied correlation-function matrix with cross-correlations / aggregate "
                 "whose Hamiltonian carries a split-off remainder coupling / histories of the "
-                "aggregate object) of kind x N x energy set x coupling pattern x dipole geometry "
+                "aggregate object / common dipole factor / histories of one calculator object) of "
+                "kind x N x energy set x coupling pattern x dipole geometry "
                 "x bath pattern x time axis [x correlation-matrix pattern] [x cut-off mode x "
                 "value] [x ALL operation sequences up to the depth x calculator created "
-                "before/after]; inside each point (history section: purity of every step, "
-                "Fourier clause and identity with a fresh object only) ALL rotations of the "
-                "tier, all relabellings, both scale factors and the uncoupled partner; "
+                "before/after] [x common dipole factor s] [x ALL sequences of calculator "
+                "operations up to the depth that end with a calculate operation]; inside each "
+                "point (history section: purity of every step, "
+                "Fourier clause and identity with a fresh object only; calculator-history "
+                "section: purity + Fourier clause at the returned axis after every calculate "
+                "operation, identity of spectra of the same route and carrier) ALL rotations of "
+                "the tier, all relabellings, both scale factors and the uncoupled partner; "
                 "non-trivial = aggregate of >= 2 molecules with "
-                "non-zero coupling and non-degenerate exciton levels")
+                "non-zero coupling and non-degenerate exciton levels (calculator-history "
+                "section: a spectrum returned after at least two successful bootstraps, system "
+                "a molecule or a coupled aggregate)")
     run.assumptions = [
         "reference: mc/refmodels/absorption_ref.py (direct O(Nt*Nw) Fourier sum at the returned "
         "axis points; g(t) by two successive cubic-spline cumulative integrations of the "
@@ -1214,6 +1544,19 @@ def run(run):
         "its calculator object is created (Mock's bootstrap diagonalises the aggregate) to after "
         "calculate(); get_RelaxationTensor / get_ReducedDensityMatrixPropagator themselves are "
         "not spectrum calculations and lie outside the snapshot",
+        "dipole-scale section: the common factor s multiplies every dipole handed to "
+        "Molecule.set_dipole; in dipole-dipole mode eps_r is multiplied by s^2 so that the "
+        "couplings (hence lines and line shapes) stay those of the unit-scale system up to "
+        "rounding; isolated molecule: s <= 1 only (its radiative width scales with s^2)",
+        "calculator-history section: the propagator handed to bootstrap(prop=) is built once "
+        "before the history (standard Redfield, time-independent); from_dynamics is requested "
+        "only while the most recent bootstrap operation supplied it (otherwise the call has no "
+        "propagator to work with); the exceptions 'Calculator must be bootstrapped first' "
+        "(no successful bootstrap yet) and 'RWA not set by system nor explicitely' are the "
+        "documented refusals, any other exception is a crash; the carrier frequency used to "
+        "group spectra and to recognise the known displacement is the calculator's public "
+        "attribute rwa at the time of the call, the Fourier reference itself does not use it "
+        "(line-shape route)",
     ]
     run.bounds = {"N": [1, 2, 3], "time axes [Nt, dt/fs]": AXES[run.tier],
                   "time axes with static tensor": AXES_TENSOR[run.tier],
@@ -1229,6 +1572,13 @@ def run(run):
                   "history": {"alphabet": HIST_ALPHABET[run.tier], "depth": HIST_DEPTH[run.tier],
                               "sequences": len(histories(run.tier)),
                               "calculator": ["before", "after"]},
+                  "dipole factors s (dipole-scale section)": DSCALES,
+                  "calculator-history": {"alphabets": CALC_ALPHABET,
+                                         "depth": CALC_DEPTH[run.tier],
+                                         "sequences": {f: len(calc_histories(
+                                             f, CALC_DEPTH[run.tier][f])) for f in CALC_ALPHABET},
+                                         "rwa offsets from the mean site energy (1/cm)":
+                                             CALC_RWA_OFFSETS},
                   "tolerances": {"fourier": TOL_F, "rounding": TOL_R, "integral": TOL_I,
                                  "monomer-scaling": TOL_MONO_SCALE}}
     infos = []
